@@ -43,10 +43,11 @@ def parseEntry (e : String) : Option (List String × FSL.Node) :=
       let n ← sz.toNat?
       let m ← m.toNat?
       pure (comps p, .file (List.replicate n 'x') m)
-  | ["l", p, t] => do
+  | ["l", p, t, n] => do
       let p ← stringOfHex p
       let t ← stringOfHex t
-      pure (comps p, .link (comps t))
+      let n ← n.toNat?
+      pure (comps p, .link (comps t) n)
   | _ => none
 
 def mkFSL (es : List (List String × FSL.Node)) : FSL.FS := fun q => if q = [] then some .dir else (es.lookup q)
@@ -55,7 +56,7 @@ def kindAt (fs : FSL.FS) (p : List String) : String :=
   match fs p with
   | some .dir => "d"
   | some (.file _ m) => s!"f{m}"
-  | some (.link _) => "l"
+  | some (.link _ _) => "l"
   | none => "-"
 
 def showLink (r : Option FSL.FS) (p : List String) (base : String) : String :=
@@ -96,7 +97,8 @@ def handle : List String → String
           if op == "symlink" then
             let t := comps x
             let base := t.getLast?.getD ""
-            s!"L {showLink (FSL.localSymlink fs path t) path base} R {showLink (FSL.remoteSymlink fs path t base) path base}"
+            let tl := a2.toNat?.getD 0
+            s!"L {showLink (FSL.localSymlink fs path t tl) path base} R {showLink (FSL.remoteSymlink fs path t tl base) path base}"
           else if op == "hardlink" then
             let t := comps x
             let base := t.getLast?.getD ""
